@@ -111,6 +111,9 @@ func main() {
 	if r.Counter("spin_measurements") == 0 || r.Counter("calls_judged") == 0 {
 		r.Fatal("nothing was measured (spin_measurements=%d calls_judged=%d)", r.Counter("spin_measurements"), r.Counter("calls_judged"))
 	}
+	for _, k := range []string{"later_notifications_delivered", "later_roots_list_answered", "pending_calls_completed_with_own_answer", "second_calls_succeeded", "second_calls_failed_promptly_on_closed_stream"} {
+		r.Require(r.Counter(k) > 0, "monitor counter %s is zero: the workload did not exercise that part of the oracle", k)
+	}
 	r.Finish("per client kind (Streamable JSON answers, Streamable SSE answers, Streamable GET listening stream, legacy SSE, stdio) a seeded list of scripts = (placement, fragment class, random parameters): a fragment (garbage bytes incl. NUL / invalid UTF-8, non-JSON lines, JSON of the wrong kind, responses with unknown / other-pending / mistyped / missing ids, both or neither of result and error, results and errors of the wrong shape, odd notifications and server requests, deep nesting, frames of 64 KiB-1 / 64 KiB / 64 KiB+1 / 1 MiB / 16 MiB, SSE comments, blank lines, CR / CRLF line ends, data without space, multi-line data, id-only events, BOM, unknown fields, unterminated huge line, duplicated / missing / garbage / late endpoint events, HTTP-level faults: content types, empty 200, 204, 202, 5xx/4xx HTML, redirects, truncated chunked bodies, Content-Length mismatches, bad status lines and headers, abort) is placed before / inside / after / instead of the valid answer of one probe call (ListTools or CallTool), on the GET stream while the probe runs over POST, in the handshake, or on stderr; the exchange ends by the valid answer, by the server closing, or (where the client cannot know) by the caller's 1.5 s deadline. Scripted servers use no library type (raw TCP HTTP/1.1 server, scripted stdio child). Per script, in a child process: the probe returns an error or the valid result (never a foreign-id frame's content, never a result out of nothing), a call pending across the fragment completes with its own answer, CPU of the idle client over 300 ms windows before / after the fragment stays below 20 % of a core (two consecutive windows to call it a spin), later well-formed notification + roots/list request on the long-lived stream are processed (one following frame may be lost to a fragment that leaves a line open), a second call succeeds (or fails promptly when the server closed the stream), Close returns within 10 s (stdio 12 s). A wait is cut short only when the client's reader goroutine is gone or busy-looping. Distinct = (client kind, placement, fragment class, probe outcome) that conformed.",
 		[]string{
 			"'all byte streams' is sampled: fixed class list x placements x seeded parameters",
